@@ -47,6 +47,9 @@ func init() {
 		if n := os.Getenv("DBGNAMED"); n != "" {
 			surveyNamed(p, n)
 		}
+		if os.Getenv("DBGSHSL") != "" {
+			surveyShareSlice(p)
+		}
 		if os.Getenv("DBGOVW") != "" {
 			surveyOverwritten(p)
 		}
@@ -599,6 +602,41 @@ func surveyNamed(p *Program, name string) {
 	for f := range p.AllFuncs {
 		if f.Name() == name || strings.HasPrefix(f.Name(), name+"[") {
 			fmt.Printf("NAMED %q pkg=%s blocks=%v typeargs=%d synthetic=%q\n", f.String(), funcPkgPath(f), f.Blocks != nil, len(f.TypeArgs()), f.Synthetic)
+		}
+	}
+}
+
+// surveyShareSlice: a method stores into a field of its receiver a slice (or pointer) value loaded
+// from a field of another parameter, without copying.
+func surveyShareSlice(p *Program) {
+	for f := range p.AllFuncs {
+		if f.Blocks == nil || !isCirclFunc(f) || !sourceFunc(f) || f.Signature.Recv() == nil || len(f.Params) < 2 {
+			continue
+		}
+		for _, b := range f.Blocks {
+			for _, in := range b.Instrs {
+				st, ok := in.(*ssa.Store)
+				if !ok || !mutableRefType(st.Val.Type()) {
+					continue
+				}
+				fa, ok := st.Addr.(*ssa.FieldAddr)
+				if !ok || !isReceiverVal(f, fa.X) {
+					continue
+				}
+				ld, ok := st.Val.(*ssa.UnOp)
+				if !ok || ld.Op != token.MUL {
+					continue
+				}
+				fa2, ok := ld.X.(*ssa.FieldAddr)
+				if !ok {
+					continue
+				}
+				base, _ := memRoot(fa2.X)
+				if isReceiverVal(f, fa2.X) {
+					continue
+				}
+				fmt.Printf("SHARESLICE %s: %s: recv.%s = %s (root %T)\n", p.pos(st.Pos()), fname(f), fieldName(fa), descVal(st.Val), base)
+			}
 		}
 	}
 }
